@@ -177,7 +177,9 @@ func runMerge(
 		return fmt.Errorf("%q is not a branch name", args[0])
 	}
 	commits := [][]byte{sum}
-	commitNames := []string{displayableCommitName(args[0], sum)}
+	// the branch as resolved (BRANCH may be given as heads/x, refs/heads/x, x~0 or
+	// by the last part of a nested name): the merge commit goes to this very branch
+	commitNames := []string{strings.TrimPrefix(name, "heads/")}
 	for _, s := range args[1:] {
 		_, sum, com, err := ref.InterpretCommitName(db, rs, s, true)
 		if err != nil {
